@@ -171,12 +171,22 @@ fn dyadic(x: f64) -> Option<(bool, u128, u32)> {
 }
 
 fn q(x: f64) -> String {
-    let (neg, m, k) = dyadic(x).expect("representable parameter");
-    let den: u128 = 1u128 << k;
-    if neg {
-        format!("((-{m}) # {den})%Q")
+    if let Some((neg, m, k)) = dyadic(x) {
+        let den: u128 = 1u128 << k;
+        return if neg { format!("((-{m}) # {den})%Q") } else { format!("({m} # {den})%Q") };
+    }
+    // very large or very small magnitudes: m * 2^e with the power left to Coq
+    assert!(x.is_finite(), "representable parameter");
+    let bits = x.to_bits();
+    let neg = bits >> 63 == 1;
+    let e = ((bits >> 52) & 0x7ff) as i64;
+    let frac = bits & ((1u64 << 52) - 1);
+    let (m, exp) = if e == 0 { (frac, -1074i64) } else { (frac | (1u64 << 52), e - 1075) };
+    let num = if neg { format!("(-{m})") } else { format!("{m}") };
+    if exp >= 0 {
+        format!("(Qmake (Z.mul {num} (Z.pow 2 {exp})) 1)")
     } else {
-        format!("({m} # {den})%Q")
+        format!("(Qmake {num} (Pos.pow 2 {}))", -exp)
     }
 }
 
@@ -360,6 +370,53 @@ fn numeric_flags(w: &Wf, c: &Common, rate: f64, base: &Result<IqSamples<Complex6
     fl
 }
 
+/// Homogeneity and phase judged RELATIVELY (1e-9 per sample): samples(scale s) = s * samples(scale 1),
+/// samples(phase p) = cis(2 pi p) * samples(phase absent).  An exactly zero scale must give exact
+/// zeros; a non-zero scale must not (unless the product underflows: absolute slack 4 * MIN_POSITIVE).
+fn relative_flags(w: &Wf, c: &Common, rate: f64, n: u64) -> (bool, bool) {
+    if n > MAX_NUMERIC {
+        return (true, true);
+    }
+    let rel_close = |got: &[Complex64], want: &[Complex64]| -> bool {
+        got.len() == want.len()
+            && got.iter().zip(want).all(|(g, e)| {
+                if !(e.re.is_finite() && e.im.is_finite()) {
+                    return true; // overflow or NaN envelope: outside the clause
+                }
+                (g - e).norm() <= 1e-9 * e.norm() + 4.0 * f64::MIN_POSITIVE
+            })
+    };
+    let mut hom = true;
+    if let Some(s) = c.scale {
+        let c1 = Common { scale: Some(1.0), ..*c };
+        match (values(sample_c(w, &c1, rate)), values(sample_c(w, c, rate))) {
+            (Some(v1), Some(vs)) => {
+                if s == 0.0 {
+                    hom = vs.len() == v1.len() && vs.iter().all(|z| z.re == 0.0 && z.im == 0.0);
+                } else {
+                    let want: Vec<Complex64> = v1.iter().map(|z| z * s).collect();
+                    hom = rel_close(&vs, &want);
+                }
+            }
+            _ => hom = false,
+        }
+    }
+    let mut phase = true;
+    if let Some(p) = c.phase {
+        let c0 = Common { phase: None, ..*c };
+        match (values(sample_c(w, &c0, rate)), values(sample_c(w, c, rate))) {
+            (Some(v0), Some(vp)) => {
+                let rot = Complex64::cis(2.0 * std::f64::consts::PI * p);
+                let want: Vec<Complex64> = v0.iter().map(|z| z * rot).collect();
+                // the rotation itself is rounded: relative 1e-9 still holds sample by sample
+                phase = rel_close(&vp, &want);
+            }
+            _ => phase = false,
+        }
+    }
+    (hom, phase)
+}
+
 // ---------------------------------------------------------------------------------------------
 // Coq literals
 
@@ -461,6 +518,11 @@ fn run_case(cx: &mut Ctx, w: &Wf, c: &Common, m: &Mask, rate: f64) {
     let ok = part_shape(&rk);
     let mut om = part_shape(&rm);
     let mut fl = numeric_flags(w, c, rate, &rc, cx.mutant, &mut cx.rng2);
+    if let Ok(sm) = &rc {
+        let (h, p) = relative_flags(w, c, rate, sm.sample_count() as u64);
+        fl.hom = fl.hom && h;
+        fl.phase = fl.phase && p;
+    }
     // all-known partial = concrete, bit for bit
     fl.same = match (&rc, &rk) {
         (Ok(a), Ok(IqSamplesOrPlaceholder::Samples(b))) => a == b || (a.sample_count() == b.sample_count() && {
@@ -678,6 +740,43 @@ fn main() {
         let c = Common { duration, scale, phase, detuning };
         run_case(&mut cx, &w, &c, &m, rate);
     }
+
+    // (2b) SCALE-BOUNDARY stream: every kind, tiny / huge / exactly-zero scales, concrete and
+    // partial (all known, and with the first kind parameter forgotten)
+    let boundary = [5e-324, 1e-300, 1e-20, 1e-17, 2.2e-16, 2.3e-16, 1e-12, 1e-6, 1.0, 1e6, 1e300];
+    let mut scales: Vec<f64> = vec![0.0, -0.0];
+    for b in boundary {
+        scales.push(b);
+        scales.push(-b);
+    }
+    let mut boundary_cases = 0u64;
+    for &kind in &KINDS {
+        for &rate in &[1.0, 8.0, 1.0e6] {
+            let duration = 6.0 / rate;
+            for &sc in &scales {
+                for (ph, det) in [(None, None), (Some(0.3125), None), (Some(0.25), Some(rate / 8.0))] {
+                    let np = n_params(kind);
+                    let padded = matches!(kind, Kind::Erf | Kind::Raised);
+                    let w = Wf {
+                        kind,
+                        ps: params_for(kind, duration, &mut rng),
+                        iq: Complex64::new(0.5, -0.25),
+                        pad_l: if padded { 20.0 * pad_unit(rate) } else { 0.0 },
+                        pad_r: if padded { 32.0 * pad_unit(rate) } else { 0.0 },
+                    };
+                    let c = Common { duration, scale: Some(sc), phase: ph, detuning: det };
+                    let mut first = vec![false; np];
+                    if np > 0 && boundary_cases % 2 == 1 {
+                        first[0] = true;
+                    }
+                    let m = Mask { ps: first, iq: boundary_cases % 4 == 3, ..Default::default() };
+                    run_case(&mut cx, &w, &c, &m, rate);
+                    boundary_cases += 1;
+                }
+            }
+        }
+    }
+    cx.run.count_n("scale-boundary-cases", boundary_cases);
 
     // (3) decimal durations that are exact multiples of the sample period as written (k ns at
     // 1 GS/s, k us at 1 MS/s, ...).  The f64 nearest to k * 10^-e is not a dyadic multiple, so the
